@@ -189,3 +189,11 @@ func init() {
 		r.checkFn(ld, "z80.(*CPU).Step", cs, ir, false, false, "cpu.Step()")
 	}
 }
+
+func init() {
+	checks["C15"] = func(ld *Loaded, r *Run) {
+		r.verifyHelpers(ld, propFilter("C15"))
+		r.Assumptions["C15: reflect.DeepEqual on two map[uint16]uint8 values = both nil or both non-nil with the same keys and values (stub)"] = true
+		r.Assumptions["C15: distinct slice arguments do not alias (Put's data and the store)"] = true
+	}
+}
